@@ -1287,6 +1287,16 @@ private:
 
   bool doAddListener(const ListenerCfg &lc)
   {
+    // A listener requested with TLS is only created when the server TLS context
+    // exists; otherwise onListener() would accept its connections as plain
+    // sessions and serve them in clear text.
+    if (lc.tls != TlsMode::None &&
+        !(lc.tls == TlsMode::Server && _config.serverTls.enabled && _sslSrv))
+    {
+      err(TransportError::Config, "TLS listener requested but server TLS is not enabled");
+      return false;
+    }
+
     int sfd = -1;
     sockaddr_storage ss{};
     socklen_t sl = 0;
@@ -1452,6 +1462,23 @@ private:
 
   bool doConnect(const ConnectReq &cr)
   {
+    // A connection requested with TLS is only made when the client TLS context
+    // exists; never fall back to a clear-text session. Fail the connect with an
+    // onClose for the id connect() already returned (as the other failure paths do).
+    if (cr.tls != TlsMode::None &&
+        !(cr.tls == TlsMode::Client && _config.clientTls.enabled && _sslCli))
+    {
+      decltype(_cbs.onClose) closeCb;
+      { std::lock_guard<std::mutex> g(_cbMutex); closeCb = _cbs.onClose; }
+      if (closeCb)
+      {
+        closeCb(cr.sid, TransportErrorInfo{TransportError::Config,
+                                           "TLS requested but client TLS is not enabled"});
+      }
+      err(TransportError::Config, "TLS requested but client TLS is not enabled");
+      return false;
+    }
+
     addrinfo hints{};
     hints.ai_family = AF_UNSPEC;
     hints.ai_socktype = SOCK_STREAM;
